@@ -50,6 +50,45 @@ Proof.
     apply (Hd x y e); auto. intro; subst; contradiction.
 Qed.
 
+(* ------------------------------------------------------------------ dedup and reorder *)
+Lemma dedup_In l : forall seen c, In c (dedup l seen) <-> In c l /\ ~ In c seen.
+Proof.
+  induction l as [|x l IH]; simpl; intros seen c; [tauto|].
+  destruct (mem x seen) eqn:M.
+  - apply mem_In in M. rewrite IH. split; [tauto|]. intros [[->|H] Hn]; tauto.
+  - apply mem_false in M. simpl. rewrite IH. simpl. split.
+    + intros [->|[H1 H2]]; [tauto|]. split; [tauto|]. intro; apply H2; auto.
+    + intros [[->|H1] H2]; [tauto|]. destruct (Pos.eq_dec x c) as [->|Hne]; [tauto|].
+      right. split; auto. intros [->|H3]; tauto.
+Qed.
+Lemma dedup_NoDup l : forall seen, NoDup (dedup l seen).
+Proof.
+  induction l as [|x l IH]; simpl; intro seen; [constructor|].
+  destruct (mem x seen); auto. constructor; auto.
+  rewrite dedup_In. intros [_ H]. apply H. simpl; auto.
+Qed.
+Lemma NoDup_filter {A} (f : A -> bool) l : NoDup l -> NoDup (filter f l).
+Proof.
+  induction l as [|x l IH]; simpl; intro N; [constructor|]. inversion N; subst.
+  destruct (f x); auto. constructor; auto. intro H. apply filter_In in H as [H _]. contradiction.
+Qed.
+Lemma NoDup_map_inj {A B} (f : A -> B) l : NoDup l -> (forall x y, In x l -> In y l -> f x = f y -> x = y) -> NoDup (map f l).
+Proof.
+  induction l as [|a l IH]; simpl; intros N H; [constructor|]. inversion N; subst. constructor.
+  - intro Hin. apply in_map_iff in Hin as [y [Hy1 Hy2]]. assert (y = a) by (apply H; auto). subst. contradiction.
+  - apply IH; auto.
+Qed.
+Lemma reorder_In ord l x : In x (reorder ord l) <-> In x l.
+Proof.
+  unfold reorder. rewrite in_app_iff, in_flat_map. split.
+  - intros [[n [_ H]]|H]; apply filter_In in H; tauto.
+  - intro H. destruct (mem (f_name x) ord) eqn:M.
+    + left. exists (f_name x). split.
+      * apply dedup_In. split; [now apply mem_In | tauto].
+      * apply filter_In. split; auto. apply Pos.eqb_refl.
+    + right. apply filter_In. rewrite M. auto.
+Qed.
+
 (* ------------------------------------------------------------------ dict update of dataclass fields *)
 Definition compat (l : list fdecl) : Prop := forall x y, In x l -> In y l -> f_name x = f_name y -> x = y.
 
@@ -226,7 +265,7 @@ Section Prog.
     wf_order earlier suf = true ->
     (forall c, In c (names_of pre) -> tab_ok T c) ->
     (forall c, ~ In c (names_of pre) -> lookup_tab T c = []) ->
-    forall c, In c (names_of p) -> tab_ok (tabs T suf) c.
+    forall c, In c (names_of p) -> tab_ok (tabs_in p T suf) c.
   Proof.
     induction suf as [|d suf IH]; intros pre T earlier Hp He Hw HT HN c Hc.
     - simpl. apply HT. rewrite Hp, app_nil_r in Hc. exact Hc.
@@ -247,7 +286,7 @@ Section Prog.
         unfold tab_ok. intro x. rewrite lookup_tab_cons.
         destruct (Pos.eqb (d_name d) c') eqn:E.
         * apply Pos.eqb_eq in E. subst c'.
-          rewrite class_fields_In; auto. split.
+          rewrite reorder_In, class_fields_In; auto. split.
           -- intros [[b [Hb Hx]]|Hx].
              ++ apply (HT b (Hbases b Hb)) in Hx as [a [Ha Hx]]. exists a. split; auto.
                 apply ancestor_decl; eauto.
@@ -342,12 +381,29 @@ Proof.
   inversion N; subst. constructor; auto. intro H. apply H1. now apply in_map.
 Qed.
 
-Lemma tabs_NoDup suf : forall T, (forall c, NoDup (map f_name (lookup_tab T c))) ->
-  forall c, NoDup (map f_name (lookup_tab (tabs T suf) c)).
+Lemma reorder_NoDup ord l : NoDup (map f_name l) -> NoDup (map f_name (reorder ord l)).
+Proof.
+  intro N. assert (Nl : NoDup l) by (eapply NoDup_map_NoDup; eauto).
+  apply NoDup_map_inj.
+  - unfold reorder. apply NoDup_app_intro.
+    + apply NoDup_flat_map.
+      * apply dedup_NoDup.
+      * intros n _. now apply NoDup_filter.
+      * intros n m e _ _ Hne H1 H2. apply filter_In in H1 as [_ H1]. apply filter_In in H2 as [_ H2].
+        apply Pos.eqb_eq in H1. apply Pos.eqb_eq in H2. congruence.
+    + now apply NoDup_filter.
+    + intros e H1 H2. apply in_flat_map in H1 as [n [Hn H1]]. apply filter_In in H1 as [_ H1]. apply Pos.eqb_eq in H1.
+      apply filter_In in H2 as [_ H2]. apply negb_true_iff, mem_false in H2. apply H2. rewrite H1.
+      apply dedup_In in Hn. tauto.
+  - intros x y Hx Hy E. apply reorder_In in Hx. apply reorder_In in Hy. exact (NoDup_map_compat f_name l N x y Hx Hy E).
+Qed.
+
+Lemma tabs_NoDup p0 suf : forall T, (forall c, NoDup (map f_name (lookup_tab T c))) ->
+  forall c, NoDup (map f_name (lookup_tab (tabs_in p0 T suf) c)).
 Proof.
   induction suf as [|d suf IH]; simpl; intros T H c; auto.
   apply IH. intro c'. rewrite lookup_tab_cons. destruct (Pos.eqb (d_name d) c'); auto.
-  apply class_fields_NoDup.
+  apply reorder_NoDup, class_fields_NoDup.
 Qed.
 
 Lemma wf_order_bases earlier p : wf_order earlier p = true -> forall d, In d p -> NoDup (d_bases d).
